@@ -79,10 +79,11 @@ def job_from_spec(spec):
 def gen_env(rng, first=False, sde=None):
     sde = SDE if sde is None else sde
     if first:
-        return {"heap": None, "aslr": True, "clock": [1000000000, 1], "sde": sde, "junk": 0, "tz": None, "lang": None,
+        return {"heap": None, "fill": None, "aslr": True, "clock": [1000000000, 1], "sde": sde, "junk": 0, "tz": None, "lang": None,
                 "lc_all": None, "lc_numeric": None, "stale": False, "stdin": "null", "home": None}
     return {
         "heap": rng.range(1, 1 << 30) if rng.chance(3, 4) else None,
+        "fill": rng.choice([None, 0x5A, 0xA5, 0xFF, 0x01, 0x7F]),
         "aslr": rng.chance(2, 3),
         "clock": [rng.range(1, (1 << 31) - 2), rng.choice([0, 1, 1, 60, 86400, 1000000])],
         "sde": sde if rng.chance(3, 5) else None,
@@ -145,6 +146,8 @@ def _env_dict(env):
             e[var] = env[k]
     if env["heap"] is not None:
         e["SIMHEAP_SEED"] = str(env["heap"])
+        if env.get("fill") is not None:
+            e["SIMHEAP_FILL"] = str(env["fill"])       # malloc'ed blocks arrive full of this byte instead of zeroes
     return e
 
 
@@ -183,7 +186,7 @@ def run_once(steps, env, root, ref=None):
         info["outcomes"].append(r.outcome())
         clock_vals = [ev["ret"] for ev in r.trace if ev["fault"] == "clock"]
         info["clock_reads"] += len(clock_vals)
-        outs = common.collect_outputs(job, root)
+        outs = common.collect_outputs(job, root, strict=True)
         for ch, data in outs.items():
             outputs["%s/%s" % (name, ch)] = data
         info["ids"][name] = {"clock": clock_vals}
